@@ -541,6 +541,7 @@ class Condition:
         for w in self._waiters[:n]:
             s._wake(w)
         self._waiters = self._waiters[n:]
+        s.yield_point()
 
     def notify_all(self):
         self.notify(len(self._waiters))
@@ -565,6 +566,7 @@ class Event:
         for w in self._waiters:
             s._wake(w)
         self._waiters = []
+        s.yield_point()      # a real thread can be preempted right after the wake-up took effect
 
     def clear(self):
         s = cur_sched()
@@ -765,6 +767,7 @@ class Queue:
         for g in self._getters:
             s._wake(g)
         self._getters = []
+        s.yield_point()
 
     def put_nowait(self, item):
         self.put(item, False)
